@@ -407,7 +407,7 @@ func (p c08Prog) nontrivial() bool {
 }
 
 func runC08(e *Env) {
-	e.Rule = "programs of response operations {SetStatus(code) for code in -1,0,100,101,200,201,204,301,404,500,599; SetHeader; Resp.Write incl. empty; WriteString; Flush; http.Error; http.Redirect; Text; JSON; NoContent; AddError; io.Copy from a reader without WriteTo; a re-dispatch of the context through HandleContext in single-handler chains} distributed over the before-Next and after-Next phases of a 1..4 handler chain (global middleware, route middleware, main), GET/POST, with or without an OnError hook (doing nothing / status / status+body), on a recording writer (with or without io.ReaderFrom, like net/http's) with a fault plan (n-th write accepts k bytes and errors); plus ALL sequences of <= 4 operations over a 9-operation alphabet in a single handler under 4 fault plans; plus chains that do nothing. Observed: the ordered call log WriteHeader/Write/Flush at the underlying writer, body bytes, Context.Length() after dispatch. Oracle: reference state machine unset -> recorded -> committed. Non-trivial: contains a flush, a zero-length write, a failing write, or a status change after the commit; distinct by program. The operation alphabet also has the Stream helper (status, Content-Type, bytes of a reader that may be empty). A sixth of the routed programs run behind pkg/handlers.Timeout with a request whose deadline has already passed (the middleware records 504 when the chain comes back to it)."
+	e.Rule = "programs of response operations {SetStatus(code) for code in -1,0,100,101,200,201,204,301,404,500,599; SetHeader; Resp.Write incl. empty; WriteString; Flush; http.Error; http.Redirect; Text; JSON; NoContent; AddError; io.Copy from a reader without WriteTo; a re-dispatch of the context through HandleContext in single-handler chains} distributed over the before-Next and after-Next phases of a 1..4 handler chain (global middleware, route middleware, main), GET/POST, with or without an OnError hook (doing nothing / status / status+body), on a recording writer (with or without io.ReaderFrom, like net/http's) with a fault plan (n-th write accepts k bytes and errors); plus ALL sequences of <= 4 operations over a 9-operation alphabet in a single handler under 4 fault plans; plus chains that do nothing. Observed: the ordered call log WriteHeader/Write/Flush at the underlying writer, body bytes, Context.Length() after dispatch. Oracle: reference state machine unset -> recorded -> committed. Non-trivial: contains a flush, a zero-length write, a failing write, or a status change after the commit; distinct by program. The operation alphabet also has the Stream helper (status, Content-Type, bytes of a reader that may be empty). A sixth of the routed programs run behind pkg/handlers.Timeout with a request whose deadline has already passed (the middleware records 504 when the chain comes back to it). A quarter of the programs run right after a request of the same router (same context pool) that answered through a writer of its own which it left in c.Resp."
 	e.Assumptions = []string{
 		"helpers are expanded into the primitives their documentation promises (http.Error = status + message line, Text = status + bytes, JSON = status + encoded value + newline, NoContent = status 204)",
 		"writes that may fail go through Resp.Write (WriteString/Text panic on a write error by contract and are only used without a fault plan)",
@@ -606,6 +606,12 @@ func c08Check(t *T, p c08Prog) {
 
 	// build the router
 	r := rux.New()
+	leave := func() {}
+	if t.R.IntN(4) == 0 {
+		// the request before this one (same router, same context pool) left its own writer in c.Resp
+		leave = WriterLeaver(r)
+		t.Count("programs.after_a_request_that_left_its_writer_in_the_context", 1)
+	}
 	if p.HasHook {
 		r.OnError = func(c *rux.Context) {
 			for _, o := range p.OnError {
@@ -674,6 +680,7 @@ func c08Check(t *T, p c08Prog) {
 		defer cancel()
 		creq = creq.WithContext(dctx)
 	}
+	leave()
 	if pv, panicked := catch(func() { entry.ServeHTTP(w, creq) }); panicked {
 		t.Fail("servehttp-panic", "program %v panicked: %v", p.describe(), pv)
 		return
